@@ -4951,7 +4951,16 @@ pub fn initialize(env: &mut Env) {
                 }
                 Err(NErr::value_error("didn't find".to_string()))
             }
-            b => Err(NErr::argument_error_2(&a, &b)),
+            b => {
+                let mut it = mut_obj_into_iter(&mut a, "find")?;
+                while let Some(x) = it.next() {
+                    let x = x?;
+                    if x == b {
+                        return Ok(x);
+                    }
+                }
+                Err(NErr::value_error("didn't find".to_string()))
+            }
         },
     });
     env.insert_builtin(EnvTwoArgBuiltin {
@@ -4967,7 +4976,16 @@ pub fn initialize(env: &mut Env) {
                 }
                 Ok(Obj::Null)
             }
-            b => Err(NErr::argument_error_2(&a, &b)),
+            b => {
+                let mut it = mut_obj_into_iter(&mut a, "find?")?;
+                while let Some(x) = it.next() {
+                    let x = x?;
+                    if x == b {
+                        return Ok(x);
+                    }
+                }
+                Ok(Obj::Null)
+            }
         },
     });
     env.insert_builtin(EnvTwoArgBuiltin {
